@@ -260,14 +260,14 @@ Definition trf (da db : Z) (l : level) (lv : list level) (el : Z * (tree * tree)
   map (fun pv => (if lz l then fst el :: fst pv else fst pv, snd pv))
       (spec_trace da db lv (fst (snd el)) (snd (snd el))).
 
-Lemma run_ref : forall da db lv r z a b,
+Lemma run_ref : forall wt da db lv r z a b,
   forallb (fun l => la l || lb l) lv = true ->
   op_ok la lv a -> op_ok lb lv b -> zok (cntb lz lv) z ->
-  zok (cntb lz lv) (fst (run true r da db lv z a b))
-  /\ feq (zval (fst (run true r da db lv z a b))) (ref_final (zval z) (spec_trace da db lv a b))
-  /\ cnt (is_cnt 1) (snd (run true r da db lv z a b)) = ref_adds (zval z) (spec_trace da db lv a b).
+  zok (cntb lz lv) (fst (run true r wt da db lv z a b))
+  /\ feq (zval (fst (run true r wt da db lv z a b))) (ref_final (zval z) (spec_trace da db lv a b))
+  /\ cnt (is_cnt 1) (snd (run true r wt da db lv z a b)) = ref_adds (zval z) (spec_trace da db lv a b).
 Proof.
-  intros da db. induction lv as [|l lv IH]; intros r z a b Hlv Ha Hb Hz.
+  intros wt da db. induction lv as [|l lv IH]; intros r z a b Hlv Ha Hb Hz.
   - cbn [run spec_trace]. destruct Ha as [Had _], Hb as [Hbd _].
     unfold cntb in *. cbn [filter length] in *.
     destruct a as [va|]; [|discriminate]. destruct b as [vb|]; [|discriminate].
@@ -280,18 +280,19 @@ Proof.
   - cbn [run spec_trace]. cbn [forallb] in Hlv. apply andb_true_iff in Hlv. destruct Hlv as [Hl Hlv].
     assert (sorted_t a = true /\ sorted_t b = true) as [Hsa Hsb] by (unfold op_ok in *; tauto).
     rewrite iter_elems_spec by auto. fold (lv_elems da db l lv a b).
+    match goal with |- context [step true r l ?zb ?f0 ?bd] => generalize f0 end. intros fl.
     assert (forall c ta tb, In (c, (ta, tb)) (lv_elems da db l lv a b) ->
             forall zc, zok (cntb lz lv) zc ->
-            zok (cntb lz lv) (fst (run true (r + 1) da db lv zc ta tb))
-            /\ feq (zval (fst (run true (r + 1) da db lv zc ta tb)))
+            zok (cntb lz lv) (fst (run true (r + 1) wt da db lv zc ta tb))
+            /\ feq (zval (fst (run true (r + 1) wt da db lv zc ta tb)))
                    (ref_final (zval zc) (spec_trace da db lv ta tb))
-            /\ cnt (is_cnt 1) (snd (run true (r + 1) da db lv zc ta tb))
+            /\ cnt (is_cnt 1) (snd (run true (r + 1) wt da db lv zc ta tb))
                = ref_adds (zval zc) (spec_trace da db lv ta tb)) as Hel.
     { intros c ta tb Hin zc Hzc. destruct (spec_elems_ok _ _ _ _ _ _ _ _ _ Hl Ha Hb Hin).
       apply IH; auto. }
     clear IH Ha Hb Hsa Hsb. fold (trf da db l lv).
     revert Hel. generalize (lv_elems da db l lv a b) as els. intros els Hel.
-    set (stp := step true r l (existsb lz lv) (run true (r + 1) da db lv)).
+    set (stp := step true r l (existsb lz lv) fl (run true (r + 1) wt da db lv)).
     set (N := cntb lz (l :: lv)).
     assert (forall st, zok N (fst st) ->
             zok N (fst (fold_left stp els st))
@@ -314,7 +315,7 @@ Proof.
           destruct (lookup c zes) as [zc|] eqn:Elk.
           + assert (zok (cntb lz lv) zc) as Hzc.
             { apply lookup_In in Elk. rewrite Forall_forall in Hall. apply (Hall _ Elk). }
-            specialize (H1 zc Hzc). destruct (run true (r + 1) da db lv zc ta tb) as [zc' e].
+            specialize (H1 zc Hzc). destruct (run true (r + 1) wt da db lv zc ta tb) as [zc' e].
             cbn [fst snd] in *. destruct H1 as [Hk' [Hv' Hc']].
             assert (feq (below (zval (Node zes)) c) (zval zc)) as Hbel.
             { intros p. unfold below. rewrite zval_Node, Elk. reflexivity. }
@@ -341,7 +342,7 @@ Proof.
               cbn [is_cnt]. rewrite (ref_adds_ext _ _ _ Hbel). lia.
           + pose proof (zok_default lv) as Hzc.
             specialize (H1 _ Hzc).
-            destruct (run true (r + 1) da db lv (z_default (existsb lz lv)) ta tb) as [zc' e].
+            destruct (run true (r + 1) wt da db lv (z_default (existsb lz lv)) ta tb) as [zc' e].
             cbn [fst snd] in *. destruct H1 as [Hk' [Hv' Hc']].
             assert (feq (below (zval (Node zes)) c) (zval (z_default (existsb lz lv)))) as Hbel.
             { intros p. unfold below. rewrite zval_Node, Elk, zval_default. reflexivity. }
@@ -363,10 +364,11 @@ Proof.
                  ++ intros p. rewrite zval_Node, lookup_insert, Z.eqb_refl; auto.
                  ++ intros c2 p Hne. rewrite !zval_Node, lookup_insert by auto.
                     destruct (Z.eqb_spec c2 c); [congruence | reflexivity].
-            * rewrite !cnt_app, Hc', ref_adds_pc. unfold evs_if. rewrite cnt_cons, cnt_nil.
+            * rewrite !cnt_app, Hc', ref_adds_pc, cnt_fail_evs by reflexivity.
+              unfold evs_if. rewrite cnt_cons, cnt_nil.
               cbn [is_cnt]. rewrite (ref_adds_ext _ _ _ Hbel). lia.
         - rewrite map_pair_id. unfold N in Hst. rewrite (zok_skip l lv (fst st) Elz) in Hst.
-          specialize (H1 _ Hst). destruct (run true (r + 1) da db lv (fst st) ta tb) as [z' e].
+          specialize (H1 _ Hst). destruct (run true (r + 1) wt da db lv (fst st) ta tb) as [z' e].
           cbn [fst snd] in *. destruct H1 as [Hk' [Hv' Hc']]. split; [|split]; auto.
           + rewrite (zok_skip l lv z' Elz). exact Hk'.
           + rewrite !cnt_app, Hc'. unfold evs_if. rewrite cnt_cons, cnt_nil. cbn [is_cnt]. lia. }
